@@ -533,9 +533,10 @@ namespace occa {
       // 1 + ++ x
       //     ^ check left
       if (prevTokenIsOp != nextTokenIsOp) {
+        // [+ - * &] after an operand are binary whatever follows: 1 - -2, 6 & ~2
         return (onlyUnary
                 ? prevTokenIsOp
-                : nextTokenIsOp);
+                : false);
       }
       // y ++ x (Unable to apply operator)
       // y + x
